@@ -24,6 +24,7 @@ fn main()
 		Some("mut-eval") => ast_eval::run_mut(),
 		Some("mutpass-eval") => ast_eval::run_mutpass(),
 		Some("fcall-eval") => ast_eval::run_fcall(),
+		Some("keyoffset-eval") => ast_eval::run_keyoffset(),
 		Some("syntax-eval") => ast_eval::run_syntax(),
 		Some("lint-tree-eval") => ast_eval::run_lint_tree(),
 		Some("label-eval") => ast_eval::run_labels(),
